@@ -158,7 +158,7 @@ theorem deepEq_symm : ∀ (x y : Val), deepEq x y = deepEq y x := by
   case strct.strct t1 f t2 g => rw [BEq.comm (a := t1), deepEqs_symm f g]
   case arr.arr t1 f t2 g => rw [BEq.comm (a := t1), deepEqs_symm f g]
   case nilslice.nilslice t1 t2 => rw [BEq.comm]
-  case slice.slice t1 i f t2 j g => rw [BEq.comm (a := t1), deepEqs_symm f g, idsym]
+  case slice.slice t1 i f t2 j g => rw [BEq.comm (a := t1), deepEqs_symm f g, idsym, BEq.comm (a := f.len)]
   case nilmap.nilmap t1 t2 => rw [BEq.comm]
   case map.map t1 i k1 v1 t2 j k2 v2 => rw [BEq.comm (a := t1), deepEqs_symm k1 k2, deepEqs_symm v1 v2, idsym]
   case nilptr.nilptr t1 t2 => rw [BEq.comm]
@@ -355,7 +355,7 @@ theorem evalRows_total : ∀ (rows : RRows), rowsWf rows = true → ∀ input, a
     simp only [rowsWf, Bool.and_eq_true] at h
     simp only [evalRows]
     split
-    · exact ⟨_, rfl⟩
+    · exact evalRows_total rest h.2 input hi
     · obtain ⟨b, hb⟩ := evalRow_total row h.1 input hi
       rw [hb]
       cases b
@@ -428,5 +428,20 @@ theorem run_append (o : Obj) (pre post : List Call) : run o (pre ++ post) = run 
   induction pre generalizing o with
   | nil => rfl
   | cons c cs ih => simp [run, state, ih]
+
+theorem resolveTuplesV_wf : ∀ (items : Items) (fixed : List Ty) (elemT : Ty) (rows : RRows),
+    resolveTuplesV items fixed elemT = .ok rows → rowsWf rows = true
+  | .nil, _, _, rows, h => by simp [resolveTuplesV] at h; subst h; rfl
+  | .one _ _, _, _, rows, h => by simp [resolveTuplesV] at h
+  | .tuple cs rest, fixed, elemT, rows, h => by
+    simp only [resolveTuplesV] at h
+    obtain ⟨row, hrow, h2⟩ := bind_ok _ _ _ h
+    obtain ⟨rs, hrs, h3⟩ := bind_ok _ _ _ h2
+    injection h3 with h3; subst h3
+    have hw : rowWf row = true := by
+      split at hrow
+      · contradiction
+      · exact toExprFrom_wf cs _ 0 row hrow
+    simp [rowsWf, hw, resolveTuplesV_wf rest fixed elemT rs hrs]
 
 end C18L
